@@ -14,7 +14,11 @@ CLAIMED = {
         text="Proof (Lean 4): the G.711 tables the running library uses are extracted by execution on every run and proved equal (kernel `decide`) to the "
              "Recommendation's segment formulas; encode∘decode identity on all codes; the short entry point equals the definition on the whole 16-bit range. "
              "Exhaustive correspondence of all 12 entry points per law (256 codes, 65536 shorts, s32/float/double variants) ties the lib-shaped model to the code. "
-             "Partial: IEEE serialisers, byte-order helpers and ADPCM decoders are being added.",
+             "ADPCM: lib-shaped IMA (WAV and AIFF-C ima4 layouts) and MS ADPCM block decoders proved equal to reference decoders written from the published "
+             "algorithms for all block bytes, every legal block size and 1-2 channels (ima_wav_decode_ref, ima_aiff_decode_ref, ms_decode_ref); their tables are "
+             "read out of the running library through crafted blocks and proved equal to the published ones; sampled correspondence (adversarial + random blocks, "
+             "WAV/W64/AIFF-C files built around them) ties the lib-shaped decoders to the code. "
+             "Partial: IEEE serialisers and byte-order helpers are being added.",
         technique="Lean 4 theorems over a hand-written model + exhaustive correspondence (tables extracted by execution)",
         design_ref="DESIGN.md §7 C20"),
     "C13": dict(
